@@ -248,9 +248,9 @@ THOROUGH = [_reg(Present("T_present", 2, 3, 5, [0, 1, 2, 3])).name, _reg(PanSN("
 
 # archive level, through the real CLI create path (harness/cli_create.py)
 from harness import cli_create as _cc
-for _n in ['present_arc']:
+for _n in ['present_arc', 'pan_vs_files']:
     INSTANCES[_n] = _cc.INSTANCES[_n]
-QUICK += ['present_arc']; THOROUGH += ['present_arc']
+QUICK += ['present_arc', 'pan_vs_files']; THOROUGH += ['present_arc', 'pan_vs_files']
 
 
 def run(ctx):
